@@ -5,3 +5,6 @@ import Spade.Properties.C12
 #print axioms Spade.C12_collinear_no_cross
 #print axioms Spade.C12_cross_not_parallel
 #print axioms Spade.C12_zero_length
+#print axioms Spade.C12_model_refused_changes_nothing
+#print axioms Spade.C12_model_cancel_iff
+#print axioms Spade.C12_model_accepted
